@@ -472,8 +472,10 @@ theorem locateBody_sat {c : Ctx} (hc : RealRules c) (v : Nat) : Sat (locateBody 
   refine Sat.bind (Sat.triv _) (fun _ _ => ?_)
   refine Sat.ite (fun _ => ?_) (fun _ => ?_)
   · refine Sat.bind (many_sat (attribute1x_ok hc)) (fun as has => ?_)
+    refine Sat.bind (Sat.triv _) (fun _ _ => ?_)
     exact Sat.pure has
   · refine Sat.bind (opt_sat (attributes20_ok hc _)) (fun as has => ?_)
+    refine Sat.bind (Sat.triv _) (fun _ _ => ?_)
     refine Sat.pure ?_
     cases as with
     | none => intro a ha; cases ha
